@@ -23,7 +23,7 @@ func b2s(b bool) string {
 // ---------------------------------------------------------------- C01
 
 func TestC01(t *testing.T) {
-	p := &world.Profile{Name: "reaper", MinGroups: 1, MaxGroups: 2, Fleet: 0, Auto: 1, Default: 1, MaxInit: 8, SmallGraces: true, Steps: 30, Stale: true,
+	p := &world.Profile{Name: "reaper", DupTaints: true, MinGroups: 1, MaxGroups: 2, Fleet: 0, Auto: 1, Default: 1, MaxInit: 8, SmallGraces: true, Steps: 30, Stale: true,
 		Weights: with(baseWeights(), "advance", 9, "taintExt", 5, "clearNode", 3, "fault", 1, "annotate", 1, "gcNodes", 1)}
 	col := newCollector(t, "C01", "history of environment actions and scans over the real RunOnce; non-trivial = a scan that removed >=1 node while leaving >=1 tainted node in place, or that saw a tainted node within 1s of a grace boundary; distinct by (age class, empty, removed, restarted, taint value class)")
 	historyCheck(t, &historyOpts{prop: "C01", profile: p, col: col, classify: func(w *world.World, rec *world.ScanRecord) []string {
@@ -153,7 +153,8 @@ func TestC03(t *testing.T) {
 
 func TestC04(t *testing.T) {
 	p := &world.Profile{Name: "maxclamp", MinGroups: 1, MaxGroups: 2, Fleet: 1, Auto: 1, MaxInit: 8, SmallGraces: true, Steps: 25,
-		Weights: with(baseWeights(), "targetUtil", 12, "asgEdit", 1, "fleetPlan", 1)}
+		FaultFocus: "cloud",
+		Weights: with(baseWeights(), "targetUtil", 12, "asgEdit", 2, "fleetPlan", 1, "fault", 3, "drainAndForce", 3)}
 	col := newCollector(t, "C04", "history check; non-trivial = a scan with a cloud increase request (or a refused one) where max_nodes differs from the cloud maximum or the need exceeds the headroom; distinct by (relation of max_nodes to cloud max, clamped, fleet, recovery, tainted-present)")
 	historyCheck(t, &historyOpts{prop: "C04", profile: p, col: col, classify: func(w *world.World, rec *world.ScanRecord) []string {
 		var keys []string
@@ -194,7 +195,7 @@ func TestC04(t *testing.T) {
 
 func TestC05History(t *testing.T) {
 	p := &world.Profile{Name: "scaleup", MinGroups: 1, MaxGroups: 1, Fleet: 1, Auto: 1, MaxInit: 10, SmallGraces: true, Steps: 20,
-		Weights: with(baseWeights(), "targetUtil", 14, "taintExt", 4, "cordon", 1, "restart", 1, "fleetPlan", 1)}
+		Weights: with(baseWeights(), "targetUtil", 14, "taintExt", 5, "cordon", 1, "restart", 2, "fleetPlan", 1, "drainAndForce", 2, "killNode", 1)}
 	col := newCollector(t, "C05", "end-to-end: scans in the scale-up band with equal-size nodes; nodes brought into service = untaints + (requested target - real desired); non-trivial = strict scale-up band with need >= 1; distinct by (need, reused, requested, clamped, bound resource)")
 	historyCheck(t, &historyOpts{prop: "C05", profile: p, col: col, classify: func(w *world.World, rec *world.ScanRecord) []string {
 		var keys []string
@@ -213,7 +214,8 @@ func TestC05History(t *testing.T) {
 
 func TestC06(t *testing.T) {
 	p := &world.Profile{Name: "bands", MinGroups: 1, MaxGroups: 2, Fleet: 1, Auto: 1, Default: 1, Starve: 1, MaxAge: 1, MaxInit: 10, SmallGraces: true, Steps: 25,
-		Weights: with(baseWeights(), "targetUtil", 16, "scan", 12, "taintExt", 2, "cordon", 1, "restart", 1, "schedule", 2)}
+		FaultFocus: "cloud",
+		Weights: with(baseWeights(), "targetUtil", 16, "scan", 12, "taintExt", 2, "cordon", 1, "restart", 1, "schedule", 2, "asgEdit", 2, "fault", 2, "fleetPlan", 1)}
 	col := newCollector(t, "C06", "history check; every unlocked, in-bounds, fault-free scan is judged against the exact-rational band; non-trivial = band with a non-empty expected action or an edge class; distinct by (band set, edge, clamp binds, tainted present, trigger)")
 	historyCheck(t, &historyOpts{prop: "C06", profile: p, col: col, classify: func(w *world.World, rec *world.ScanRecord) []string {
 		var keys []string
@@ -292,9 +294,9 @@ func TestC07(t *testing.T) {
 // ---------------------------------------------------------------- C08
 
 func TestC08(t *testing.T) {
-	p := &world.Profile{Name: "oldest", MinGroups: 1, MaxGroups: 1, Auto: 1, MaxInit: 14, SmallGraces: true, Steps: 12, Stale: true, MaxBelowASG: 1,
+	p := &world.Profile{Name: "oldest", MinGroups: 1, MaxGroups: 1, Auto: 1, MaxAge: 1, MaxInit: 14, SmallGraces: true, Steps: 12, Stale: true, MaxBelowASG: 1,
 		FaultFocus: "node-writes",
-		Weights: map[string]int{"scan": 10, "targetUtil": 8, "fault": 3, "launch": 2, "taintExt": 1, "cordon": 1, "advance": 1, "removeTaint": 1, "setCreated": 3}}
+		Weights: map[string]int{"scan": 10, "targetUtil": 8, "fault": 3, "launch": 2, "taintExt": 1, "cordon": 1, "advance": 1, "removeTaint": 2, "setCreated": 3, "annotate": 2}}
 	col := newCollector(t, "C08", "history check; scale-down scans; non-trivial = 0 < tainted < untainted with >= 2 distinct creation times and a view order that is not already oldest-first; also ties and failed writes; distinct by (k, U, distinct times, sorted, ties, failed, stale)")
 	historyCheck(t, &historyOpts{prop: "C08", profile: p, col: col, classify: func(w *world.World, rec *world.ScanRecord) []string {
 		var keys []string
@@ -383,7 +385,7 @@ func TestC09(t *testing.T) {
 
 func TestC10(t *testing.T) {
 	p := &world.Profile{Name: "annot", MinGroups: 1, MaxGroups: 2, Fleet: 0, Auto: 1, MaxInit: 8, SmallGraces: true, Steps: 30, Stale: true,
-		Weights: with(baseWeights(), "annotate", 8, "taintExt", 6, "advance", 9, "clearNode", 3, "cordon", 1)}
+		Weights: with(baseWeights(), "annotate", 8, "taintExt", 6, "advance", 9, "clearNode", 3, "cordon", 1, "asgEdit", 2, "asgDesired", 2)}
 	col := newCollector(t, "C10", "history check; non-trivial = a reaping scan that sees an annotated node satisfying the removal condition, with or without other removable nodes; distinct by (temptation, value class, others removed, empty)")
 	historyCheck(t, &historyOpts{prop: "C10", profile: p, col: col, classify: func(w *world.World, rec *world.ScanRecord) []string {
 		var keys []string
@@ -594,8 +596,8 @@ func stringIndex(s, sub string) int {
 // ---------------------------------------------------------------- C20
 
 func TestC20(t *testing.T) {
-	p := &world.Profile{Name: "chaos", MinGroups: 1, MaxGroups: 3, Dry: 1, Fleet: 1, Auto: 1, Default: 1, Starve: 1, MaxAge: 1, MaxInit: 6, SmallGraces: true, Steps: 30, Stale: true,
-		Weights: with(baseWeights(), "oddNode", 5, "oddPod", 5, "fault", 8, "taintExt", 5, "killNode", 1, "detach", 1, "asgEdit", 1, "fleetPlan", 2, "advance", 8, "gcNodes", 1)}
+	p := &world.Profile{Name: "chaos", DupTaints: true, MinGroups: 1, MaxGroups: 3, Dry: 1, Fleet: 1, Auto: 1, Default: 1, Starve: 1, MaxAge: 1, MaxInit: 6, SmallGraces: true, Steps: 30, Stale: true,
+		Weights: with(baseWeights(), "oddNode", 5, "oddPod", 5, "fault", 8, "taintExt", 6, "killNode", 2, "detach", 1, "asgEdit", 1, "fleetPlan", 2, "advance", 8, "gcNodes", 1)}
 	col := newCollector(t, "C20", "chaos histories: malformed nodes/pods, absurd taint values, API and cloud failures at drawn call indices; non-trivial = a scan in which an injected failure was hit, or an odd object was part of a processed in-bounds group; distinct by (fault kinds hit, odd kinds present, outcome)")
 	historyCheck(t, &historyOpts{prop: "C20", profile: p, col: col, classify: func(w *world.World, rec *world.ScanRecord) []string {
 		var keys []string
@@ -639,7 +641,7 @@ func sortStrings(s []string) {
 
 func TestC13History(t *testing.T) {
 	p := &world.Profile{Name: "gauges", MinGroups: 1, MaxGroups: 2, Auto: 1, Default: 1, MaxInit: 8, SmallGraces: true, Steps: 25, Stale: true,
-		Weights: with(baseWeights(), "addPods", 8, "targetUtil", 6, "cordon", 5, "taintExt", 4, "schedule", 2)}
+		Weights: with(baseWeights(), "addPods", 8, "targetUtil", 6, "cordon", 5, "taintExt", 4, "schedule", 2, "replacePod", 6)}
 	col := newCollector(t, "C13", "end-to-end: after every scan the request and capacity gauges are compared with exact totals computed from the view (pods by the reference attribution, allocatable over untainted uncordoned nodes) with shuffled list orders; non-trivial = a scan with init containers or overhead among the pods, or cordoned/tainted nodes next to untainted ones, in a shuffled order; distinct by (pods, classes present, shuffled)")
 	historyCheck(t, &historyOpts{prop: "C13", profile: p, col: col, classify: func(w *world.World, rec *world.ScanRecord) []string {
 		var keys []string
@@ -704,6 +706,27 @@ func TestC14History(t *testing.T) {
 		shared := len(w.Cfg.Groups) > 1 && w.Cfg.Groups[0].Opts.LabelKey == w.Cfg.Groups[1].Opts.LabelKey
 		if replaced > 0 || shared {
 			return []string{fmt.Sprintf("attr|replaced=%d|shared=%v|groups=%d", minI(replaced, 3), shared, len(w.Cfg.Groups))}
+		}
+		return nil
+	}})
+}
+
+
+// TestC20Dry: the chaos profile with the first group always in dry mode (its in-memory taint
+// trackers are state that only dry mode exercises) and nodes that come and go.
+func TestC20Dry(t *testing.T) {
+	p := &world.Profile{Name: "chaos-dry", DupTaints: true, MinGroups: 1, MaxGroups: 2, Dry: 2, Fleet: 1, Auto: 1, Default: 1, MaxInit: 8, SmallGraces: true, Steps: 30, Stale: true,
+		Weights: with(baseWeights(), "targetUtil", 12, "killNode", 5, "gcNodes", 2, "launch", 4, "oddNode", 2, "oddPod", 2, "fault", 3, "taintExt", 4, "asgEdit", 1, "advance", 6, "restart", 1)}
+	col := newCollector(t, "C20", "chaos histories with the first group always dry (tracker state carried between scans), nodes killed / launched between scans, malformed objects and API failures; non-trivial = a scan of a dry group after at least one tracked node left the node list; distinct by situation digest")
+	historyCheck(t, &historyOpts{prop: "C20", profile: p, col: col, classify: func(w *world.World, rec *world.ScanRecord) []string {
+		kills := 0
+		for _, a := range w.Log {
+			if a.Op == "killNode" {
+				kills++
+			}
+		}
+		if kills > 0 && len(rec.Groups) > 0 && rec.Groups[0].Processed {
+			return []string{fmt.Sprintf("dry-chaos|kills=%d|scans=%d", minI(kills, 4), minI(rec.Index, 4))}
 		}
 		return nil
 	}})
